@@ -424,3 +424,8 @@ fn acl_parse_fail() {
         "Invalid Configuration: apply-access cannot be null"
     );
 }
+
+#[cfg(feature = "isomer_erbium_verif")]
+mod isomer_erbium_verif {
+    include!(concat!(env!("ISOMER_ERBIUM_VERIF_DIR"), "/acl.rs"));
+}
